@@ -2,7 +2,7 @@
 From Coq Require Import List String Ascii ZArith. Import ListNotations.
 From Coq Require Import List Bool.
 From SV Require Import Lib.Str Model.Types Model.Naming Model.Api Model.Back Proofs.GenProofs.
-From SV Require Import Model.FrontSmall Model.View Model.Front Proofs.WalkProofs Proofs.AttrProofs.
+From SV Require Import Model.FrontSmall Model.View Model.Front Proofs.WalkProofs Proofs.AttrProofs Proofs.WalkerTableProofs.
 
 (* the attribute block contains one entry per public attribute (type-variable attributes excepted), no more *)
 Theorem C03_class_attributes_once : forall classes rmap nc ats inner acc names s r s',
@@ -52,9 +52,27 @@ Proof. exact front_attribute_names_unique. Qed.
 (* what cls_ok says, one level unfolded *)
 Theorem C03_cls_ok_unfolded : forall c, cls_ok c -> NoDup (map a_name (c_attrs c)) /\ Forall cls_ok (c_classes c).
 Proof. exact cls_ok_unfolded. Qed.
+(* the child filters of the inventory theorems (module_child, class_child, enum_child, is_enum_def) ARE the sets written in
+   ASTWalker.__walk / __is_enum: the tables t_walker_* are regenerated from the source on every run *)
+Theorem C03_module_child_is_the_source_set : forall m, other_ok m = true ->
+  module_child m = mem_str (member_class m) Gen.Tables.t_walker_module_children.
+Proof. exact module_child_is_table. Qed.
+Theorem C03_class_child_is_the_source_set : forall m, other_ok m = true ->
+  class_child m = mem_str (member_class m) Gen.Tables.t_walker_class_children.
+Proof. exact class_child_is_table. Qed.
+Theorem C03_enum_child_is_the_source_set : forall m, other_ok m = true ->
+  enum_child m = mem_str (member_class m) Gen.Tables.t_walker_enum_children.
+Proof. exact enum_child_is_table. Qed.
+Theorem C03_enum_test_is_the_source_test : forall c,
+  is_enum_def c = existsb (fun b => match be_fullname b with Some f => mem_str f Gen.Tables.t_enum_base_names | None => false end) (cd_bases c).
+Proof. exact is_enum_def_is_table. Qed.
 Print Assumptions C03_class_attributes_once.
 Print Assumptions C03_class_methods.
 Print Assumptions C03_front_module_inventory.
 Print Assumptions C03_front_class_inventory.
 Print Assumptions C03_front_attribute_names_unique.
 Print Assumptions C03_cls_ok_unfolded.
+Print Assumptions C03_module_child_is_the_source_set.
+Print Assumptions C03_class_child_is_the_source_set.
+Print Assumptions C03_enum_child_is_the_source_set.
+Print Assumptions C03_enum_test_is_the_source_test.
